@@ -737,8 +737,9 @@ package bkl
 //@ func Parser.MergeDocument(p, patch) (err)
 //@   propagates all   [C08] [C20] [C07] [C03]
 //@   property C02
+//@   property C01
 //@   modifies Parser.docs, Document.Data, Document.Parents, Document.ID
-//@   uses rmemApp, rdistinctApp, rappNil, rsnocApp, anyRejectedApp, wfDocsSnoc, wfDocsMono
+//@   uses rmemApp, rdistinctApp, rappNil, rsnocApp, anyRejectedApp, wfDocsSnoc, wfDocsMono, rappAssoc
 //@   requires (wfDocs (Parser.docs p) allocTop) (not (rmem patch (Parser.docs p))) (not (= patch 0))
 //@   ensures (wfDocs (Parser.docs p) allocTop@post)                                                                                    [C02]
 //@   ensures (forall ((r Int)) (=> (rmem r (Parser.docs p)) (or (rmem r (old (Parser.docs p))) (= r patch) (>= r allocTop))))            [C02]
@@ -750,9 +751,11 @@ package bkl
 //@                     (=> (not (= ts RNil))
 //@                         (and (= (heap Parser.docs) (old (heap Parser.docs)))
 //@                              (=> (not (isErr err)) (appliedTo (old (heap Document.Data)) (heap Document.Data) ts body))
+//@                              (=> (not (isErr err)) (= (Document.Parents patch) (rapp (old (Document.Parents patch)) ts)))
 //@                              (=> (isErr err) (anyRejected (old (heap Document.Data)) ts body)))))))
 //@   loop 1
 //@     invariant (= (heap Parser.docs) (old (heap Parser.docs)))
+//@     invariant (= (Document.Parents patch) (rapp (old (Document.Parents patch)) done))     [C02]
 //@     invariant (= matched (not (= done RNil)))
 //@     invariant (appliedTo (old (heap Document.Data)) (heap Document.Data) done (old (Document.Data patch)))
 //@     invariant (not (anyRejected (old (heap Document.Data)) done (old (Document.Data patch))))
@@ -760,7 +763,7 @@ package bkl
 //@   propagates all   [C08] [C20] [C07] [C03]
 //@   property C02
 //@   modifies Parser.docs, Document.Data, Document.Parents, Document.ID
-//@   uses rmemApp, rdistinctApp, rappNil, rsnocApp, anyRejectedApp, wfDocsSnoc, wfDocsMono
+//@   uses rmemApp, rdistinctApp, rappNil, rsnocApp, anyRejectedApp, wfDocsSnoc, wfDocsMono, rappAssoc
 //@   requires (wfDocs (Parser.docs p) allocTop) (not (rmem patch (Parser.docs p))) (not (= patch 0))
 //@   ensures (wfDocs (Parser.docs p) allocTop@post)                                                                                    [C02]
 //@   ensures (forall ((r Int)) (=> (rmem r (Parser.docs p)) (or (rmem r (old (Parser.docs p))) (>= r allocTop))))                        [C02]
@@ -772,7 +775,8 @@ package bkl
 //@              (let ((body (VMap (store (mc (old (Document.Data patch))) "$match" VAbsent))))
 //@                (and (not (isErr err))
 //@                     (exists ((n Int)) (and (>= n allocTop) (= (Parser.docs p) (rapp (old (Parser.docs p)) (RCons n RNil)))
-//@                                            (= (Document.Data n) (mergeF VNil body))))
+//@                                            (= (Document.Data n) (mergeF VNil body))
+//@                                            (= (Document.Parents patch) (rapp (old (Document.Parents patch)) (RCons n RNil)))))
 //@                     (forall ((r Int)) (=> (and (< r allocTop) (not (= r patch))) (= (Document.Data r) (old (Document.Data r))))))))
 //@   ensures (=> (and matched (not (= (select (mc (old (Document.Data patch))) "$match") VNil)))                                                   [C02]
 //@              (let ((body (VMap (store (mc (old (Document.Data patch))) "$match" VAbsent)))
@@ -784,9 +788,11 @@ package bkl
 //@                (and (= (heap Parser.docs) (old (heap Parser.docs)))
 //@                     (=> (= ts RNil) (= err ErrNoMatchFound))
 //@                     (=> (not (isErr err)) (appliedTo h1 (heap Document.Data) ts body))
+//@                     (=> (not (isErr err)) (= (Document.Parents patch) (rapp (old (Document.Parents patch)) ts)))
 //@                     (=> (and (isErr err) (not (= ts RNil))) (anyRejected h1 ts body)))))))
 //@   loop 1
 //@     invariant (= (heap Parser.docs) (old (heap Parser.docs)))
+//@     invariant (= (Document.Parents patch) (rapp (old (Document.Parents patch)) done))     [C02]
 //@     invariant (appliedTo (store (old (heap Document.Data)) patch (VMap (store (mc (old (Document.Data patch))) "$match" VAbsent))) (heap Document.Data) done
 //@                          (VMap (store (mc (old (Document.Data patch))) "$match" VAbsent)))
 //@     invariant (not (anyRejected (store (old (heap Document.Data)) patch (VMap (store (mc (old (Document.Data patch))) "$match" VAbsent))) done
@@ -898,7 +904,7 @@ package bkl
 //@ func Parser.loadFile(p, path, child) (res, err)
 //@   propagates all   [C08] [C20] [C07] [C03]
 //@   property C18
-//@   uses freshDocsSnoc
+//@   uses freshDocsSnoc, rappLen
 //@   ensures (=> (not (isErr err)) (freshDocs (file.docs res) allocTop allocTop@post))                                                  [C02]
 //@   ensures (= (heap Parser.docs) (old (heap Parser.docs)))
 //@   ensures (=> (not (isErr err)) (= (file.id res) (ite (= child 0) path (str.++ (old (file.id child)) "|" path))))
@@ -910,6 +916,7 @@ package bkl
 //@   ensures (forall ((r Int)) (=> (< r allocTop) (= (file.depth r) (old (file.depth r)))))
 //@   loop 1
 //@     invariant (freshDocs (file.docs f) (old allocTop) allocTop)
+//@     invariant (= (rllen (file.docs f)) idx)                                     [C05] [C02]
 //@     invariant (and (>= f (old allocTop)) (< f allocTop))
 //@     invariant (= (file.depth f) (ite (= child 0) 0 (+ (file.depth child) 1)))
 //@     invariant (forall ((r Int)) (=> (< r (old allocTop)) (= (file.depth r) (old (file.depth r)))))
